@@ -13,6 +13,7 @@ pub static META: Meta = Meta {
     rule: "two generators: (a) the general stratified-program generator, (b) recursive shortest/longest-path style rules with min/max in a recursive head over weighted cyclic graphs, plus head constants; every answer the engine returns is checked structurally: no tuple twice, every tuple has the query head's arity, every head-constant position holds exactly that constant; non-trivial = non-empty answer; distinct = program + EDB",
     assumptions: &["purely structural oracle; which tuples are returned is C01's concern"],
     floor: 30,
+    watchdog: (6_000, 15_000),
 };
 
 /// Structural defects of an answer for query head `qc` (the last clause's head shape).
@@ -41,7 +42,7 @@ pub fn defects(p: &GenProgram, rows: &[Tup]) -> Option<String> {
     None
 }
 
-fn gen_recursive_minmax(r: &mut crate::rng::Rng) -> GenProgram {
+fn gen_recursive_minmax(r: &mut crate::rng::Rng, allow_unbounded: bool) -> GenProgram {
     // w(X,Y,D): weighted edges; sp(X,Y,min<D>) base + recursive extension
     let mut edb = Db::new();
     let n = 2 + r.below(4);
@@ -49,8 +50,17 @@ fn gen_recursive_minmax(r: &mut crate::rng::Rng) -> GenProgram {
     for _ in 0..(2 + r.below(7)) {
         w.insert(vec![V::I(r.range(0, n as i64)), V::I(r.range(0, n as i64)), V::I(r.range(1, 4))]);
     }
-    edb.insert("w".into(), w);
     let f = if r.chance(70, 100) { AggFn::Min } else { AggFn::Max };
+    if f == AggFn::Max && (!allow_unbounded || r.chance(85, 100)) {
+        // recursive max over a cycle does not terminate on the pinned engine even with a bound
+        // on D: keep the graph acyclic so the case produces an answer to inspect
+        w = w.into_iter().filter(|t| t[0] < t[1]).collect();
+        if w.is_empty() {
+            w.insert(vec![V::I(0), V::I(1), V::I(1)]);
+            w.insert(vec![V::I(1), V::I(2), V::I(2)]);
+        }
+    }
+    edb.insert("w".into(), w);
     let var = |s: &str| Term::Var(s.into());
     let base = Clause {
         head: "sp".into(),
@@ -62,7 +72,9 @@ fn gen_recursive_minmax(r: &mut crate::rng::Rng) -> GenProgram {
         Lit::Pos(Atom { rel: "w".into(), args: vec![var("Y"), var("Z"), var("D2")] }),
         Lit::Assign("D".into(), Arith::Bin(Box::new(Arith::T(var("D1"))), Op::Add, Box::new(Arith::T(var("D2"))))),
     ];
-    if f == AggFn::Max || r.chance(50, 100) {
+    // unbounded recursion over a cyclic graph does not terminate on the pinned engine (the
+    // aggregate is not applied inside the fixpoint); those cases only cost watchdog time
+    if f == AggFn::Max || !allow_unbounded || r.chance(85, 100) {
         body.push(Lit::Cmp(var("D"), Cmp::Lt, Term::C(V::I(r.range(4, 9)))));
     }
     let rec = Clause { head: "sp".into(), hargs: vec![HeadArg::T(var("X")), HeadArg::T(var("Z")), HeadArg::Agg(f, "D".into())], body };
@@ -89,7 +101,8 @@ pub fn run(ctx: &mut Ctx) {
     for k in ctx.cases(total) {
         let mut r = ctx.rng(k);
         let recmm = k % 3 == 0;
-        let p = if recmm { gen_recursive_minmax(&mut r) } else { gen_program(&mut r, &opts) };
+        let p = if recmm { gen_recursive_minmax(&mut r, !ctx.quick()) } else { gen_program(&mut r, &opts) };
+        ctx.trace(|| format!("{} | {:?}", p.text().replace('\n', " ; "), p.edb));
         ctx.eval();
         ctx.count(if recmm { "gen:recursive_minmax" } else { "gen:general" });
         let ans = match run_engine(&p, &RunOpts::default()) {
